@@ -495,7 +495,13 @@ impl LiveActor {
         result: Result<SyncFinished, ConnectError>,
     ) {
         match result {
-            Err(ConnectError::RemoteAbort(AbortReason::AlreadySyncing)) => {
+            // The remote declined because it is already syncing with us. If we accepted a request
+            // of the remote in the meantime, that session now holds the state and will report its
+            // own completion. Otherwise our request still holds it and nothing else would ever
+            // reset it, so the declined request is handled like any other failed sync.
+            Err(ConnectError::RemoteAbort(AbortReason::AlreadySyncing))
+                if !self.state.is_connecting(&namespace, &peer) =>
+            {
                 debug!(?reason, "remote abort, already syncing");
             }
             res => {
